@@ -20,7 +20,7 @@ LEVEL = "model_checking"
 RULE = (
     "all pairs of label arrays of G1(3,3), G1(4,2) (thorough: G1(4,3), G2(2,2,3), G3(1,2,2,3) x 64 refs) x reference label in {1..4} x "
     "prediction selector in all non-empty subsets of {1..4} (python ints, numpy ints, lists) + absent labels outside the dtype range (l+2^bits) for uint8/int8/uint16; all mask pairs of small 1-D/2-D/3-D grids x "
-    "mask dtypes without selection; run-length volumes RLE(s) with lengths in {1,255,256,257,65535,65536}; clDice on 2-D/3-D mask pairs. "
+    "mask dtypes without selection; run-length volumes RLE(s) with lengths in {1,255,256,257,65535,65536}; clDice on 2-D/3-D mask pairs; histories: all ordered pairs of G1(4,2)/G2(2,2,2) reference contents x 2 of 4 predictions x ref label x selector ([1], [1,2], none = binary masks): call, overwrite the reference in place, call, overwrite the prediction in place, call, restore, call, edit again, call - on the same two array objects. "
     "non-trivial = selected masks intersect and differ; distinct by (metric family, selected mask pair)"
 )
 ASSUMPTIONS = [
@@ -48,6 +48,9 @@ def blocks(tier):
     # --- long selector lists (up to every label) on arrays whose label ids are spread widely, integer and float dtypes
     for lo, hi in sc.ranges(len(WIDE_REFS) * len(WIDE_PREDS), 4):
         B.append(("wide", lo, hi))
+    # --- histories on the same array objects: call, edit the array in place, call again
+    for lo, hi in sc.ranges(81, 2):
+        B.append(("hist", lo, hi))
     # --- masks without selection
     mask_scopes = [((6,), MASK_DTYPES), ((2, 3), MASK_DTYPES), ((2, 2, 2), ("bool", "uint8"))]
     if tier == "thorough":
@@ -103,6 +106,10 @@ def run_block(block, acc):
         for i in range(lo, hi):
             for j in range(n):
                 run_case({"kind": "mask", "shape": list(shape), "dtypes": list(dts), "pi": i, "ri": j}, acc)
+    elif kind == "hist":
+        for i in range(block[1], block[2]):
+            for j in range(81):
+                run_case({"kind": "hist", "r0": i, "r1": j}, acc)
     elif kind == "wide":
         for q in range(block[1], block[2]):
             run_case({"kind": "wide", "p": q % len(WIDE_PREDS), "r": q // len(WIDE_PREDS)}, acc)
@@ -279,6 +286,8 @@ def run_case(case, acc):
             _judge_counts(acc, {**case, "dtypes": [dt]}, f"rle mask dtype={dt}", nX, nY, nI, got, "rle_mask")
     elif kind == "cl":
         _cl_case(case, acc)
+    elif kind == "hist":
+        _hist_case(case, acc)
     elif kind == "wide":
         _wide_case(case, acc)
 
@@ -315,6 +324,51 @@ def _wide_case(case, acc):
                     if len(sel) >= 8 and 0 < nI:
                         acc.nontriv("wide", case["p"], case["r"], rl, tuple(sel))
                     _judge_counts(acc, {**case, "scale": scale, "dtype": dt, "ref_label": rl, "sel": sel}, f"wide ids x{scale} dtype={dt} ref={rl} list of {len(sel)} labels", nX, nY, nI, got, "long_list")
+
+
+HIST_PREDS = ([1, 1, 0, 2], [1, 2, 2, 0], [2, 1, 1, 1], [0, 0, 1, 2])
+
+
+def _hist_case(case, acc):
+    """the same two array objects are used for a sequence of calls; between calls their contents are overwritten in place
+    (reference first, then prediction, then reference back) - every call must reflect the current contents"""
+    i, j = case["r0"], case["r1"]
+    shape = (4,) if (i + j) % 2 == 0 else (2, 2)
+    acc.case("hist", i, j)
+    c0, c1 = sc.grid(i, shape, 2), sc.grid(j, shape, 2)
+    if i == j:
+        return
+    for dt in ("uint8", "int64") if (i + j) % 5 == 0 else ("uint8",):
+        for a in ((i + j) % 4, (i + j + 2) % 4):
+            p0, p1 = HIST_PREDS[a], HIST_PREDS[(a + 1) % len(HIST_PREDS)]
+            for rl in (1, 2):
+                for sel in ([1], [1, 2], None):
+                    # without selection the arguments are binary masks
+                    prep = (lambda x: (np.asarray(x) != 0).astype(dt)) if sel is None else (lambda x: np.asarray(x).astype(dt))
+                    if sel is None and rl == 2:
+                        continue
+                    R = prep(c0).copy()
+                    P = prep(np.array(p0).reshape(shape)).copy()
+                    steps = (("first", None, None), ("ref_edited", "R", c1), ("pred_edited", "P", np.array(p1).reshape(shape)), ("ref_restored", "R", c0), ("ref_edited_again", "R", c1))
+                    for name, which, content in steps:
+                        if which == "R":
+                            R[...] = prep(content)
+                        elif which == "P":
+                            P[...] = prep(content)
+                        if sel is None:
+                            X, Y = rm.foreground(R), rm.foreground(P)
+                            got = {m: _call(acc, case, m, lambda m=m: Metric[m](R, P)) for m in METS}
+                        else:
+                            X = rm.voxsets(R).get(rl, frozenset())
+                            pv = rm.voxsets(P)
+                            Y = frozenset().union(*[pv.get(s_, frozenset()) for s_ in sel])
+                            got = {m: _call(acc, case, m, lambda m=m: Metric[m](R, P, rl, list(sel))) for m in METS}
+                        nX, nY, nI = len(X), len(Y), len(X & Y)
+                        acc.state("hist", shape, name, sorted(X), sorted(Y))
+                        if name != "first" and 0 < nI and X != Y:
+                            acc.nontriv("hist", i, j, a, rl, repr(sel), name)
+                        acc.outcome(tuple(str(got[m][1]) for m in METS))
+                        _judge_counts(acc, {**case, "dtype": dt, "pred": a, "ref_label": rl, "sel": sel, "step": name}, f"history step {name} (same array objects, edited in place) dtype={dt} ref_label={rl} sel={sel}", nX, nY, nI, got, "history")
 
 
 _SKEL: dict = {}
